@@ -236,6 +236,10 @@ func sentinelFor(t reflect.Type) reflect.Value {
 }
 
 func (p c11) Run(c *core.Ctx) {
+	if c.Index%8 == 7 {
+		p.compiled(c)
+		return
+	}
 	ls := genLeaves(c)
 	shapes := tierN(c.Tier, 3, 5)
 	type result struct {
@@ -408,4 +412,41 @@ func describeLeaves(ls []leaf) []string {
 		out = append(out, fmt.Sprintf("%s %s `%s` [%s]", l.name, l.typ, l.tag, l.kind))
 	}
 	return out
+}
+
+// compiled: compile-time holder types for the shapes reflect.StructOf cannot build - embedded
+// structs whose own type name is unexported (their exported fields are promoted and settable).
+func (p c11) compiled(c *core.Ctx) {
+	holders := world.NewEmbedFixtures()
+	c.Rng.Shuffle(len(holders), func(i, j int) { holders[i], holders[j] = holders[j], holders[i] })
+	holders = holders[:1+c.Rng.Intn(len(holders))]
+	g := world.NewG(c.Rng)
+	g.AddNode(0, "pa")
+	k := g.AddNode(3, "pab")
+	g.Sc.Nodes[k].Qual = "g1"
+	g.Sc.Config = c11Config
+	g.ShuffleOrders()
+	var extra []any
+	for _, h := range holders {
+		extra = append(extra, h)
+	}
+	r := world.Start(g.Sc, world.Options{Extra: extra})
+	c.Count("starts", 1)
+	if r.Outcome() != "ok" {
+		c.Fail("", "compile-time embedded fixtures did not start: "+core.Short(r.OutcomeDetail(), 300), nil)
+		return
+	}
+	for _, h := range holders {
+		for _, problem := range h.Check(func(v any) string {
+			if n, ok := v.(world.Node); ok && v != nil {
+				return n.DisplayName()
+			}
+			return ""
+		}) {
+			c.Fail("", fmt.Sprintf("%T: %s", h, problem), nil)
+			return
+		}
+		c.Count("compiled_fixture_holders_checked", 1)
+	}
+	c.Nontrivial(fmt.Sprintf("compiled:%d:%T", len(holders), holders[0]))
 }
